@@ -6,8 +6,16 @@
 // Event::from_json / Filter::from_json reach them through burn_key_and_value_after_quote;
 // a skipper that stops one byte early or late desynchronises the member loop, and one that
 // refuses a valid value makes a valid text with an unknown member unparseable.
+use crate::error::Error;
 use crate::json::json_parse::{burn_key_and_value, burn_string, burn_value};
 include!("common.rs");
+
+/// In the number kernel the first byte is a minus sign or a digit, so burn_value can never reach
+/// the container and string skippers; replacing them by this stub cuts the (mutually recursive)
+/// skippers out of the query, and its assertion decides that they are indeed not reached.
+pub fn stub_not_reached(_input: &[u8], _inposp: &mut usize) -> Result<(), Error> {
+    panic!("container/string skipper reached from a number");
+}
 
 /// RFC 8259 number: [-] (0 | [1-9][0-9]*) [. [0-9]+] [(e|E) [+|-] [0-9]+].
 /// Returns true iff t[..k] is exactly one number.
@@ -50,8 +58,11 @@ fn is_delim(c: u8) -> bool {
 //@ bounds: every RFC 8259 number of 1..=6 bytes (symbolic length, arbitrary bytes accepted by a reference recogniser: optional minus, 0 or non-zero-leading integer, optional fraction, optional exponent with either case and sign) followed by an arbitrary delimiter byte (comma, closing brace/bracket, any JSON whitespace): burn_value accepts it and stops exactly on the delimiter
 //@ outside: numbers longer than 6 bytes
 #[kani::proof]
-#[kani::unwind(4)]
+#[kani::unwind(2)]
 #[kani::stub(core::panic::Location::caller, stub_caller)]
+#[kani::stub(crate::json::json_parse::burn_array, stub_not_reached)]
+#[kani::stub(crate::json::json_parse::burn_object, stub_not_reached)]
+#[kani::stub(crate::json::json_parse::burn_string, stub_not_reached)]
 fn c01_kernel_burn_number() {
     let t: [u8; 7] = kani::any();
     let k: usize = kani::any();
@@ -173,7 +184,7 @@ fn any_ws() -> u8 {
 macro_rules! burn_container {
     ($name:ident, $object:expr) => {
         #[kani::proof]
-        #[kani::unwind(4)]
+        #[kani::unwind(3)]
         #[kani::stub(core::panic::Location::caller, stub_caller)]
         fn $name() {
             let mut t = [0u8; 40];
@@ -184,7 +195,7 @@ macro_rules! burn_container {
             let s1: u8 = kani::any();
             let s2: u8 = kani::any();
             kani::assume(s1 <= 11 && s2 <= 11);
-            let ws: [bool; 4] = kani::any();
+            let ws: [bool; 4] = [kani::any(), kani::any(), kani::any(), kani::any()];
             let mut n = 0;
             t[n] = if $object { b'{' } else { b'[' };
             n += 1;
@@ -240,7 +251,7 @@ burn_container!(c01_kernel_burn_value_object, true);
 //@ encodes: json_parse::burn_key_and_value, burn_key_and_value_after_quote, eat_colon_with_whitespace, burn_value
 //@ bounds: an unknown member "K" ws? : ws? V with K = two arbitrary bytes forming a well-formed string body (including an escaped quote or an escaped backslash), V arbitrary among the twelve scalar shapes above, optional arbitrary whitespace on either side of the colon, followed by an arbitrary delimiter: accepted, stops exactly on the delimiter
 #[kani::proof]
-#[kani::unwind(4)]
+#[kani::unwind(3)]
 #[kani::stub(core::panic::Location::caller, stub_caller)]
 fn c01_kernel_burn_key_and_value() {
     let mut t = [0u8; 24];
@@ -255,7 +266,7 @@ fn c01_kernel_burn_key_and_value() {
     kani::assume((plain(k[0]) && plain(k[1])) || esc);
     let s: u8 = kani::any();
     kani::assume(s <= 11);
-    let ws: [bool; 2] = kani::any();
+    let ws: [bool; 2] = [kani::any(), kani::any()];
     let mut n = 0;
     t[0] = b'"'; t[1] = k[0]; t[2] = k[1]; t[3] = b'"'; n += 4;
     if ws[0] { t[n] = any_ws(); n += 1; }
